@@ -58,6 +58,7 @@ class AsyncHTTP2Connection(AsyncConnectionInterface):
         self._state = HTTPConnectionState.IDLE
         self._expire_at: float | None = None
         self._request_count = 0
+        self._inflight_requests = 0
         self._init_lock = AsyncLock()
         self._state_lock = AsyncLock()
         self._read_lock = AsyncLock()
@@ -96,36 +97,44 @@ class AsyncHTTP2Connection(AsyncConnectionInterface):
         async with self._state_lock:
             if self._state in (HTTPConnectionState.ACTIVE, HTTPConnectionState.IDLE):
                 self._request_count += 1
+                self._inflight_requests += 1
                 self._expire_at = None
                 self._state = HTTPConnectionState.ACTIVE
             else:
                 raise ConnectionNotAvailable()
 
-        async with self._init_lock:
-            if not self._sent_connection_init:
-                try:
-                    kwargs = {"request": request}
-                    async with Trace("send_connection_init", logger, request, kwargs):
-                        await self._send_connection_init(**kwargs)
-                except BaseException as exc:
-                    with AsyncShieldCancellation():
-                        await self.aclose()
-                    raise exc
+        try:
+            async with self._init_lock:
+                if not self._sent_connection_init:
+                    try:
+                        kwargs = {"request": request}
+                        async with Trace("send_connection_init", logger, request, kwargs):
+                            await self._send_connection_init(**kwargs)
+                    except BaseException as exc:
+                        with AsyncShieldCancellation():
+                            await self.aclose()
+                        raise exc
 
-                self._sent_connection_init = True
+                    self._sent_connection_init = True
 
-                # Initially start with just 1 until the remote server provides
-                # its max_concurrent_streams value
-                self._max_streams = 1
+                    # Initially start with just 1 until the remote server provides
+                    # its max_concurrent_streams value
+                    self._max_streams = 1
 
-                local_settings_max_streams = (
-                    self._h2_state.local_settings.max_concurrent_streams
-                )
-                self._max_streams_semaphore = AsyncSemaphore(
-                    local_settings_max_streams, initial_value=self._max_streams
-                )
+                    local_settings_max_streams = (
+                        self._h2_state.local_settings.max_concurrent_streams
+                    )
+                    self._max_streams_semaphore = AsyncSemaphore(
+                        local_settings_max_streams, initial_value=self._max_streams
+                    )
 
-        await self._max_streams_semaphore.acquire()
+            await self._max_streams_semaphore.acquire()
+        except BaseException as exc:
+            # The request ended before it was allocated a stream, so it no
+            # longer keeps the connection from becoming idle.
+            with AsyncShieldCancellation():
+                await self._request_closed()
+            raise exc
 
         try:
             stream_id = self._h2_state.get_next_available_stream_id()
@@ -133,6 +142,8 @@ class AsyncHTTP2Connection(AsyncConnectionInterface):
         except h2.exceptions.NoAvailableStreamIDError:  # pragma: nocover
             self._used_all_stream_ids = True
             self._request_count -= 1
+            await self._max_streams_semaphore.release()
+            await self._request_closed()
             raise ConnectionNotAvailable()
 
         try:
@@ -411,11 +422,20 @@ class AsyncHTTP2Connection(AsyncConnectionInterface):
     async def _response_closed(self, stream_id: int) -> None:
         await self._max_streams_semaphore.release()
         del self._events[stream_id]
+        await self._request_closed()
+
+    async def _request_closed(self) -> None:
+        # The connection is in use for as long as it has requests in flight.
+        # That includes requests which are waiting to be allocated a stream.
         async with self._state_lock:
-            if self._connection_terminated and not self._events:
+            self._inflight_requests -= 1
+            if self._connection_terminated and not self._inflight_requests:
                 await self.aclose()
 
-            elif self._state == HTTPConnectionState.ACTIVE and not self._events:
+            elif (
+                self._state == HTTPConnectionState.ACTIVE
+                and not self._inflight_requests
+            ):
                 self._state = HTTPConnectionState.IDLE
                 if self._keepalive_expiry is not None:
                     now = time.monotonic()
